@@ -77,15 +77,19 @@ Definition find_svc (w : world) (full : string) : option service :=
 Definition find_ing (w : world) (full : string) : option ingress :=
   find (fun i => String.eqb (i_full i) full) (w_ings w).
 
-(* strconv of the numbers used as ports: the harness prints ports as decimal strings, the
-   model keeps both the string and the number of every service port *)
+(* convutils.FindServicePort: the name of a service port, then the number of a service
+   port, then (legacy) a target port written the same way. The model keeps the string and
+   the number of every service port; portnum is strconv.ParseInt of the requested port. *)
 Definition find_port (s : service) (port : string) (portnum : option Z) : option svcport :=
-  match find (fun p => String.eqb (sp_name p) port || String.eqb (sp_target p) port) (s_ports s) with
+  match find (fun p => String.eqb (sp_name p) port) (s_ports s) with
   | Some p => Some p
   | None =>
-      match portnum with
-      | None => None
-      | Some n => find (fun p => Z.eqb (sp_port p) n) (s_ports s)
+      match match portnum with
+            | None => None
+            | Some n => find (fun p => Z.eqb (sp_port p) n) (s_ports s)
+            end with
+      | Some p => Some p
+      | None => find (fun p => String.eqb (sp_target p) port) (s_ports s)
       end
   end.
 
@@ -161,6 +165,11 @@ Definition add_host (i : ingress) (hostname : string) (x : st) : st :=
 Definition has_path (r : hostrec) (path : string) (ty : ptype) : bool :=
   existsb (fun p => String.eqb (hp_path p) path && ptype_eqb (hp_type p) ty) (h_paths r).
 
+(* the port of addBackendWithClass: an unspecified port means the first port of the service *)
+Definition pick_port (svc : service) (port : string) : option svcport :=
+  if String.eqb port "" then match s_ports svc with p :: _ => Some p | [] => None end
+  else find_port svc port (parse_int port).
+
 (* addBackendWithClass, up to AcquireBackend; returns the backend id when it succeeds *)
 Definition add_backend (w : world) (i : ingress) (hostname : string) (r : prule) (x : st)
   : st * option string :=
@@ -170,10 +179,7 @@ Definition add_backend (w : world) (i : ingress) (hostname : string) (r : prule)
   match find_svc w full with
   | None => ((s, T1), None)
   | Some svc =>
-      let port := if String.eqb (r_port r) ""
-                  then match s_ports svc with p :: _ => sp_target p | [] => "" end
-                  else r_port r in
-      match find_port svc port (parse_int port) with
+      match pick_port svc (r_port r) with
       | None => ((s, T1), None)
       | Some p =>
           let bid := backend_id (s_ns svc) (s_name svc) (sp_target p) in
@@ -329,12 +335,17 @@ Definition merge_names (dirty : list string) (b : batch) : list string :=
   let after_del := filter (fun n => negb (existsb (String.eqb n) (b_del b))) dirty in
   dedup (after_del ++ map i_full (b_add b)).
 
-(* the object synced for a name: the last added object of that name if any, else the cache *)
+(* the object synced for a name: the added object of that name if any -- unless the
+   same ingress was also updated or deleted in the batch, then the lists do not tell what
+   happened last and the cache is asked -- else the cache *)
 Definition pick_ing (w : world) (b : batch) (name : string) : option ingress :=
-  match find (fun i => String.eqb (i_full i) name) (rev (b_add b)) with
-  | Some i => Some i
-  | None => find_ing w name
-  end.
+  if existsb (String.eqb name) (b_del b) || existsb (fun i => String.eqb (i_full i) name) (b_upd b)
+  then find_ing w name
+  else
+    match find (fun i => String.eqb (i_full i) name) (rev (b_add b)) with
+    | Some i => Some i
+    | None => find_ing w name
+    end.
 
 Definition opt_list {A} (o : option A) : list A := match o with Some a => [a] | None => [] end.
 
